@@ -95,6 +95,71 @@ class ModuleInfo:
         self.consts = {}  # module-level simple assignments: name -> ast expr
 
 
+class _LoopToComp(ast.NodeTransformer):
+    """`name = []` immediately followed by `for t in it: [if c: ...] name.append(elt)` is read as
+    `name = [elt for t in it if c ...]` - the same list, and the form every rule is written for.  Applied only when the
+    loop does nothing else, `name` is not mentioned inside the loop apart from the append, and the loop target is not
+    read after the loop (a comprehension's target does not leak)."""
+
+    def _rewrite(self, stmts, fn):
+        out = []
+        i = 0
+        while i < len(stmts):
+            a = stmts[i]
+            b = stmts[i + 1] if i + 1 < len(stmts) else None
+            comp = self._match(a, b, stmts[i + 2:], fn) if b is not None else None
+            if comp is not None:
+                out.append(ast.copy_location(ast.Assign([ast.Name(a.targets[0].id, ast.Store())], comp), a))
+                ast.fix_missing_locations(out[-1])
+                i += 2
+            else:
+                out.append(a)
+                i += 1
+        return out
+
+    def _match(self, a, b, after, fn):
+        if not (isinstance(a, ast.Assign) and len(a.targets) == 1 and isinstance(a.targets[0], ast.Name) and isinstance(a.value, ast.List) and not a.value.elts):
+            return None
+        if not (isinstance(b, ast.For) and not b.orelse and len(b.body) == 1):
+            return None
+        name = a.targets[0].id
+        conds = []
+        s = b.body[0]
+        while isinstance(s, ast.If) and not s.orelse and len(s.body) == 1:
+            conds.append(s.test)
+            s = s.body[0]
+        if not (isinstance(s, ast.Expr) and isinstance(s.value, ast.Call) and isinstance(s.value.func, ast.Attribute) and s.value.func.attr == "append"
+                and isinstance(s.value.func.value, ast.Name) and s.value.func.value.id == name and len(s.value.args) == 1 and not s.value.keywords):
+            return None
+        elt = s.value.args[0]
+        mentions = [n for part in [elt, b.iter] + conds for n in ast.walk(part) if isinstance(n, ast.Name) and n.id == name]
+        if mentions:
+            return None
+        tnames = {n.id for n in ast.walk(b.target) if isinstance(n, ast.Name)}
+        for st in after:
+            # a later read of the loop target would see the leaked value - unless that statement binds the name itself
+            # first (another loop or comprehension over the same name)
+            rebound = {n.id for x in ast.walk(st) if isinstance(x, (ast.For, ast.comprehension)) for n in ast.walk(x.target) if isinstance(n, ast.Name)}
+            rebound |= {x.name for x in ast.walk(st) if isinstance(x, ast.FunctionDef)}
+            for n in ast.walk(st):
+                if isinstance(n, ast.Name) and n.id in tnames and isinstance(n.ctx, ast.Load) and n.id not in rebound:
+                    return None
+        comp = ast.ListComp(elt, [ast.comprehension(b.target, b.iter, conds, 0)])
+        return ast.copy_location(comp, b)
+
+    def generic_visit(self, node):
+        super().generic_visit(node)
+        for field in ("body", "orelse", "finalbody"):
+            v = getattr(node, field, None)
+            if isinstance(v, list) and v and isinstance(v[0], ast.stmt):
+                setattr(node, field, self._rewrite(v, node))
+        return node
+
+
+def desugar(tree):
+    return _LoopToComp().visit(tree)
+
+
 class Program:
     def __init__(self, repo=None):
         self.repo = repo or core.REPO
@@ -106,7 +171,7 @@ class Program:
                 path = os.path.join(self.src, fn)
                 with open(path) as f:
                     source = f.read()
-                tree = ast.parse(source, filename=path)
+                tree = desugar(ast.parse(source, filename=path))
                 self._load(name, path, tree, source)
         self._load_pyx()
 
